@@ -180,6 +180,32 @@ class NPProxy:
             return _np.isnan(a, *args, **kw)
         return self._elementwise(lambda v: (not isinstance(v, Sym)) and v != v, a)
 
+    def gradient(self, f, *varargs, axis=None, edge_order=1):
+        """numpy.gradient for 1-D input (its documented second-order interior / first-order edge formulas)"""
+        if not (_has_sym(f) or any(_has_sym(v) for v in varargs)):
+            return _np.gradient(f, *varargs, **({} if axis is None else {"axis": axis}), edge_order=edge_order)
+        fa = _lift_obj(_np.array(f, dtype=object))
+        if fa.ndim != 1 or edge_order != 1 or len(varargs) > 1:
+            raise HarnessError("np.gradient: only 1-D, edge_order=1 is modelled")
+        n = len(fa)
+        if n < 2:
+            raise ValueError("Shape of array too small to calculate a numerical gradient, at least 2 elements are required.")
+        if not varargs or _np.ndim(varargs[0]) == 0:
+            h = Sym.lift(varargs[0]) if varargs else Sym.lift(1)
+            d = [h] * (n - 1)
+        else:
+            xa = _lift_obj(_np.array(varargs[0], dtype=object))
+            if len(xa) != n:
+                raise ValueError("when 1d, distances must match the length of the corresponding dimension")
+            d = [xa[i + 1] - xa[i] for i in range(n - 1)]
+        out = [None] * n
+        out[0] = (fa[1] - fa[0]) / d[0]
+        out[n - 1] = (fa[n - 1] - fa[n - 2]) / d[n - 2]
+        for i in range(1, n - 1):
+            hs, hd = d[i - 1], d[i]
+            out[i] = (hs * hs * fa[i + 1] - hd * hd * fa[i - 1] + (hd * hd - hs * hs) * fa[i]) / (hs * hd * (hd + hs))
+        return symarray(out)
+
     def isscalar(self, v):
         return isinstance(v, Sym) or _np.isscalar(v)
 
@@ -253,8 +279,9 @@ def _strictly_increasing_or_raise(x, who):
 class SplineStub:
     """Callable returned by the CubicSpline / BSpline stubs."""
 
-    def __init__(self, rec, kind, x, y, s, k):
+    def __init__(self, rec, kind, x, y, s, k, w=None):
         self.kind, self.x, self.y, self.s, self.k = kind, x, y, s, k
+        ws = [Sym.lift(1)] * len(x) if w is None else [Sym.lift(v) for v in _np.asarray(w, dtype=object).reshape(-1)]
         self.rec = rec
         self.cache = {}
         ctx = core.CUR
@@ -262,11 +289,11 @@ class SplineStub:
                                                           and Sym.lift(s).const() == 0)
         self.knot_vals = None
         if not self.interpolating:
-            # documented FITPACK contract: sum (g(x_i) - y_i)^2 <= s   (g(x_i) fresh)
+            # documented FITPACK contract: sum (w_i * (g(x_i) - y_i))^2 <= s   (g(x_i) fresh)
             g = [ctx.fresh("g%d_" % i) for i in range(len(x))]
             tot = Sym.lift(0)
-            for gi, yi in zip(g, y):
-                d = gi - Sym.lift(yi)
+            for gi, yi, wi in zip(g, y, ws):
+                d = (gi - Sym.lift(yi)) * wi
                 tot = tot + d * d
             ctx.add_def(tot <= Sym.lift(s))
             self.knot_vals = g
@@ -329,17 +356,17 @@ class SciPyStubs:
             if w is not None:
                 raise HarnessError("splrep with weights and default s (m - sqrt(2m)) not modelled")
             s = 0          # documented default: s = 0.0 (interpolating) if no weights are supplied
-        if w is not None or t is not None or per:
-            raise HarnessError("splrep(w/t/per) not modelled")
-        return ("tck", xs, ys, s, k)
+        if t is not None or per:
+            raise HarnessError("splrep(t/per) not modelled")
+        return ("tck", xs, ys, s, k, w)
 
     def BSpline(self, *tck, **kw):
-        if len(tck) == 5 and tck[0] == "tck":
-            _, xs, ys, s, k = tck
+        if len(tck) == 6 and tck[0] == "tck":
+            _, xs, ys, s, k, w = tck
             if s is None:
                 raise HarnessError("splrep(s=None) default (m - sqrt(2m)) not modelled")
             self.rec.append(("BSpline", {"from": "splrep", "s": s, "k": k}))
-            return SplineStub(self.rec, "BSpline", xs, ys, s, k)
+            return SplineStub(self.rec, "BSpline", xs, ys, s, k, w)
         raise HarnessError("BSpline constructed from something else than splrep's result")
 
 
